@@ -164,7 +164,7 @@ func (e *CloneSetEnv) Steps(w *World) []string {
 			notReady++
 		}
 	}
-	surge := e.surge(cs)
+	surge := e.surge(cs, pods)
 	if len(pods) < replicas+surge {
 		out = append(out, "create")
 	}
@@ -182,8 +182,35 @@ func (e *CloneSetEnv) Steps(w *World) []string {
 }
 
 // surge is the number of extra pods the blue-green mode asks for (maxSurge while minReadySeconds is "infinite").
-func (e *CloneSetEnv) surge(cs *kruiseappsv1alpha1.CloneSet) int {
-	return 0
+// Kruise creates up to maxSurge extra pods of the update revision for the pods that still have to be updated and
+// removes an old pod for every new one that became available; while minReadySeconds is "infinite" (blue-green
+// hold) no new pod ever becomes available, so old and new pods coexist.
+func (e *CloneSetEnv) surge(cs *kruiseappsv1alpha1.CloneSet, pods []*corev1.Pod) int {
+	if cs.Spec.UpdateStrategy.MaxSurge == nil || cs.Spec.UpdateStrategy.Paused {
+		return 0
+	}
+	replicas := int(*cs.Spec.Replicas)
+	s, _ := intstr.GetScaledValueFromIntOrPercent(cs.Spec.UpdateStrategy.MaxSurge, replicas, true)
+	allowed := replicas - ceilPartition(cs.Spec.UpdateStrategy.Partition, replicas)
+	updRev := RevisionOf(cs.Name, &cs.Spec.Template)
+	old, updated := 0, 0
+	for _, o := range pods {
+		if podRev(o) != updRev {
+			old++
+		} else {
+			updated++
+		}
+	}
+	if s > old {
+		s = old
+	}
+	if s > allowed {
+		s = allowed
+	}
+	if s < 0 {
+		s = 0
+	}
+	return s
 }
 
 func statusEqual(a, b kruiseappsv1alpha1.CloneSetStatus) bool {
